@@ -153,6 +153,13 @@ func drainTable(it sstables.SSTableIteratorI, err error, limit int) scanOut {
 		if err != nil {
 			if !errors.Is(err, sstables.Done) {
 				out.Err = classifyErr(err)
+				break
+			}
+			// an exhausted iterator stays exhausted: what it hands out when asked again counts as part of the scan
+			for again := 0; again < 2; again++ {
+				if k2, v2, err2 := it.Next(); err2 == nil {
+					ks, vs = append(ks, k2), append(vs, v2)
+				}
 			}
 			break
 		}
